@@ -205,7 +205,7 @@ func (cs *csCase) dump() []csG {
 // settle waits until every goroutine of the family is parked (or gone); with `noWait` also until no goroutine of
 // <<wait>> is left. It returns the goroutines still alive.
 func (cs *csCase) settle(noWait bool) []csG {
-	deadline := time.Now().Add(2 * time.Second)
+	deadline := time.Now().Add(10 * time.Second) // (generous: the machine may be busy)
 	for {
 		gs := cs.dump()
 		quiet := true
